@@ -594,7 +594,7 @@ func main() {
 	sg := &q1q.SGen{R: r, IDs: ids}
 
 	// ---- sel: abstract shards
-	nSel := f.N(4000, 120000)
+	nSel := f.N(2500, 100000)
 	for i := 0; i < nSel; i++ {
 		ctx := sg.Corpus(4, true)
 		for _, s := range ctx {
@@ -656,7 +656,7 @@ func main() {
 	}
 
 	// ---- search / list: real shards
-	nCorpora := f.N(25, 800)
+	nCorpora := f.N(18, 600)
 	for i := 0; i < nCorpora; i++ {
 		names := append([]string(nil), q1q.RepoNames...)
 		gen.Shuffle(r, names)
